@@ -19,7 +19,8 @@ use std::cell::{Cell, RefCell};
 use std::collections::HashMap;
 use std::rc::Rc;
 
-pub struct Ctl { pub script: RefCell<Vec<i64>>, pub next: Cell<usize>, pub active: Cell<bool>, pub calls: RefCell<Vec<&'static str>> }
+pub struct Ctl { pub script: RefCell<Vec<i64>>, pub next: Cell<usize>, pub active: Cell<bool>, pub calls: RefCell<Vec<&'static str>>, /// the store hands out generated JWKs without a `kid` (the JwkStorage contract allows it)
+  pub strip_kid: Cell<bool> }
 impl Ctl {
   /// 0 = the call goes through; otherwise the KIND of the injected failure (the property quantifies over every failure, whatever its kind)
   fn hit(&self, name: &'static str) -> i64 {
@@ -35,7 +36,10 @@ fn kerr(k: i64) -> KeyStorageError { KeyStorageError::new(match k { 2 => KeyStor
 fn ierr(k: i64) -> KeyIdStorageError { KeyIdStorageError::new(match k { 2 => KeyIdStorageErrorKind::KeyIdNotFound, 3 => KeyIdStorageErrorKind::Unavailable, 4 => KeyIdStorageErrorKind::KeyIdAlreadyExists, 5 => KeyIdStorageErrorKind::RetryableIOFailure, _ => KeyIdStorageErrorKind::Unspecified }) }
 #[async_trait(?Send)]
 impl JwkStorage for FaultyJwk {
-  async fn generate(&self, key_type: KeyType, alg: JwsAlgorithm) -> KeyStorageResult<JwkGenOutput> { { let k = self.ctl.hit("generate"); if k != 0 { return Err(kerr(k)); } } self.inner.generate(key_type, alg).await }
+  async fn generate(&self, key_type: KeyType, alg: JwsAlgorithm) -> KeyStorageResult<JwkGenOutput> { { let k = self.ctl.hit("generate"); if k != 0 { return Err(kerr(k)); } }
+    let out = self.inner.generate(key_type, alg).await?;
+    if self.ctl.active.get() && self.ctl.strip_kid.get() { let mut j = serde_json::to_value(&out.jwk).unwrap(); j.as_object_mut().unwrap().remove("kid"); return Ok(JwkGenOutput::new(out.key_id, serde_json::from_value(j).unwrap())); }
+    Ok(out) }
   async fn insert(&self, jwk: Jwk) -> KeyStorageResult<KeyId> { { let k = self.ctl.hit("insert"); if k != 0 { return Err(kerr(k)); } } self.inner.insert(jwk).await }
   async fn sign(&self, key_id: &KeyId, data: &[u8], public_key: &Jwk) -> KeyStorageResult<Vec<u8>> { { let k = self.ctl.hit("sign"); if k != 0 { return Err(kerr(k)); } } self.inner.sign(key_id, data, public_key).await }
   async fn delete(&self, key_id: &KeyId) -> KeyStorageResult<()> { { let k = self.ctl.hit("delete"); if k != 0 { return Err(kerr(k)); } } self.inner.delete(key_id).await }
@@ -81,7 +85,7 @@ async fn gen_one(w: &mut World, u: U, data: i64, scope: MethodScope) {
 pub fn exec(case: &[i64]) -> Outcome {
   crate::jws_storage::rt().block_on(async {
     let mut v = case;
-    let ctl = Rc::new(Ctl { script: RefCell::new(vec![]), next: Cell::new(0), active: Cell::new(false), calls: RefCell::new(vec![]) });
+    let ctl = Rc::new(Ctl { script: RefCell::new(vec![]), next: Cell::new(0), active: Cell::new(false), calls: RefCell::new(vec![]), strip_kid: Cell::new(false) });
     let storage: FStorage = Storage::new(FaultyJwk { inner: JwkMemStore::new(), ctl: ctl.clone() }, FaultyKid { inner: KeyIdMemstore::new(), ctl: ctl.clone() });
     let mut w = World { doc: CoreDocument::builder(Default::default()).id(c04::DIDS[1].parse().unwrap()).build().unwrap(), storage, ctl, data_of_id: HashMap::new(), keys: vec![] };
     // ---- build the start document
@@ -113,9 +117,11 @@ pub fn exec(case: &[i64]) -> Outcome {
       let bits = take_lp(&mut v).unwrap(); *w.ctl.script.borrow_mut() = bits.to_vec();
       new_key = Some(k);
       let frag = format!("#f{}", u.f);
+      // fragment -1: no fragment is given AND the store's JWK carries no kid, so the method cannot be built
+      let no_id = u.f == -1; w.ctl.strip_kid.set(no_id);
       w.ctl.active.set(true);
-      let r = w.doc.generate_method(&w.storage, JwkMemStore::ED25519_KEY_TYPE, JwsAlgorithm::EdDSA, Some(&frag), scope_of(sc)).await;
-      w.ctl.active.set(false);
+      let r = w.doc.generate_method(&w.storage, JwkMemStore::ED25519_KEY_TYPE, JwsAlgorithm::EdDSA, if no_id { None } else { Some(&frag) }, scope_of(sc)).await;
+      w.ctl.active.set(false); w.ctl.strip_kid.set(false);
       if before.resolve_method(frag.as_str(), None).is_none() { w.data_of_id.insert(c04::ustr(u), k); }
       (r.map(|_| ()), frag)
     } else {
@@ -188,6 +194,9 @@ pub fn gen(rng: &mut Rng, thorough: bool, sink: &mut Sink) {
     for f in [1i64, 2, 3, 5] { for m in masks(4) {
       let mut c = head.clone(); c.extend([1, 1, 0, f]); put_lp(&mut c, &m); sink.case(c, "purge-masks");
     } }
+    for sc in [0i64, 1, 4] { for m in masks(3) { for k in [1i64, 2, 3] {
+      let mut c = head.clone(); c.extend([0, 9, 1, 0, -1, sc]); put_lp(&mut c, &m.iter().map(|b| b * k).collect::<Vec<i64>>()); sink.case(c, "generate-without-id");
+    } } }
   }
   // the KIND of the injected failure must not matter: every mask again with not-found / unavailable / other kinds on each failing call
   let kinds_of = |m: &Vec<i64>, k: i64| -> Vec<i64> { m.iter().map(|b| if *b != 0 { k } else { 0 }).collect() };
